@@ -65,7 +65,7 @@ def generate(rng, index, tier):
     scn['cli'] = index % 12 == 0
     scn['reader'] = 'raw' if index % 5 == 2 else 'bytesio'
     if index % 157 == 3:
-        scn['bulk_records'] = worlds.dict_size(rng, 70000) or 3000      # as many records as a count the source names (+-1)
+        scn['bulk_records'] = worlds.dict_size(rng, 70000, k=index // 157) or 3000      # as many records as a count the source names (+-1)
         scn['cuts'] = 'sample'
         scn['cli'] = False
     if rng.chance(0.15) and threads:
